@@ -61,6 +61,16 @@ pub trait Kind: 'static {
     fn vgen(_v: &Self::V) -> u32 {
         0
     }
+    /// payload keeps its own count of live key / value objects (zero-sized payloads with drop
+    /// glue, which a serial-number ledger cannot tell apart): `live()` = created - destroyed
+    const COUNTS_LIVE: bool = false;
+    fn live() -> (i64, i64) {
+        (0, 0)
+    }
+    fn live_reset() {}
+    /// objects that may legitimately have been leaked (a forgotten iterator, an injected panic):
+    /// lower the live counts to what is stored
+    fn live_forgive(_stored_k: i64, _stored_v: i64) {}
     /// expected rendering by `{:?}` of key / value (for the fmt engine)
     fn kdbg(raw: u8) -> String;
     fn vdbg(x: u32) -> String;
@@ -631,6 +641,157 @@ impl Kind for ZstBoth {
     }
     fn vdisp(_: u32) -> String {
         "nil".into()
+    }
+}
+
+/// Zero-sized key and value *with drop glue* (and not `Copy`): the pair occupies no bytes, so a
+/// pointer-range walk over the slots is empty, yet every pair has to be destroyed exactly once.
+/// Objects cannot be told apart; ownership is decided by counting: created - destroyed must
+/// equal the number of stored objects (plus what a forgotten iterator may have leaked).
+thread_local! {
+    static ZD_LIVE_K: Cell<i64> = const { Cell::new(0) };
+    static ZD_LIVE_V: Cell<i64> = const { Cell::new(0) };
+}
+pub struct DK(());
+impl DK {
+    pub fn new() -> DK {
+        ZD_LIVE_K.with(|c| c.set(c.get() + 1));
+        DK(())
+    }
+}
+impl Clone for DK {
+    fn clone(&self) -> DK {
+        crate::tl::tick(crate::tl::Cb::KeyClone);
+        zst_cloned();
+        DK::new()
+    }
+}
+impl Drop for DK {
+    fn drop(&mut self) {
+        ZD_LIVE_K.with(|c| c.set(c.get() - 1));
+        crate::tl::tick(crate::tl::Cb::KeyDrop);
+    }
+}
+impl PartialEq for DK {
+    fn eq(&self, _: &DK) -> bool {
+        crate::tl::tick(crate::tl::Cb::KeyEq);
+        true
+    }
+}
+impl Eq for DK {}
+impl fmt::Debug for DK {
+    fn fmt(&self, f: &mut fmt::Formatter<'_>) -> fmt::Result {
+        write!(f, "DK")
+    }
+}
+impl fmt::Display for DK {
+    fn fmt(&self, f: &mut fmt::Formatter<'_>) -> fmt::Result {
+        write!(f, "D")
+    }
+}
+pub struct DV(());
+impl DV {
+    pub fn new() -> DV {
+        ZD_LIVE_V.with(|c| c.set(c.get() + 1));
+        DV(())
+    }
+}
+impl Default for DV {
+    fn default() -> DV {
+        crate::tl::tick(crate::tl::Cb::ValDefault);
+        DV::new()
+    }
+}
+impl Clone for DV {
+    fn clone(&self) -> DV {
+        crate::tl::tick(crate::tl::Cb::ValClone);
+        zst_cloned();
+        DV::new()
+    }
+}
+impl Drop for DV {
+    fn drop(&mut self) {
+        ZD_LIVE_V.with(|c| c.set(c.get() - 1));
+        crate::tl::tick(crate::tl::Cb::ValDrop);
+    }
+}
+impl PartialEq for DV {
+    fn eq(&self, _: &DV) -> bool {
+        true
+    }
+}
+impl fmt::Debug for DV {
+    fn fmt(&self, f: &mut fmt::Formatter<'_>) -> fmt::Result {
+        write!(f, "DV")
+    }
+}
+impl fmt::Display for DV {
+    fn fmt(&self, f: &mut fmt::Formatter<'_>) -> fmt::Result {
+        write!(f, "dv")
+    }
+}
+pub struct ZstDrop;
+impl Kind for ZstDrop {
+    type K = DK;
+    type Q = DK;
+    type QO = DK;
+    type V = DV;
+    const NAME: &'static str = "zstdrop";
+    const TRACKED: bool = false;
+    const NOALLOC: bool = true;
+    const MAX_UNIV: u8 = 1;
+    const COUNTS_CLONES: bool = true;
+    const COUNTS_LIVE: bool = true;
+    fn clone_calls() -> u64 {
+        ZST_CLONES.with(|c| c.get())
+    }
+    fn live() -> (i64, i64) {
+        (ZD_LIVE_K.with(|c| c.get()), ZD_LIVE_V.with(|c| c.get()))
+    }
+    fn live_reset() {
+        ZD_LIVE_K.with(|c| c.set(0));
+        ZD_LIVE_V.with(|c| c.set(0));
+    }
+    fn live_forgive(sk: i64, sv: i64) {
+        ZD_LIVE_K.with(|c| c.set(c.get().min(sk)));
+        ZD_LIVE_V.with(|c| c.set(c.get().min(sv)));
+    }
+    fn key(_: u8) -> DK {
+        DK::new()
+    }
+    fn qo(_: u8) -> DK {
+        DK::new()
+    }
+    fn val(_: u32) -> DV {
+        DV::new()
+    }
+    fn kraw(_: &DK) -> u8 {
+        0
+    }
+    fn kid(_: &DK) -> u32 {
+        NOID
+    }
+    fn vval(_: &DV) -> u32 {
+        0
+    }
+    fn vid(_: &DV) -> u32 {
+        NOID
+    }
+    fn vset(_: &mut DV, _: u32) {}
+    fn vnorm(_: u32) -> u32 {
+        0
+    }
+    fn kdbg(_: u8) -> String {
+        "DK".into()
+    }
+    fn vdbg(_: u32) -> String {
+        "DV".into()
+    }
+    fn kdisp(_: u8) -> String {
+        "D".into()
+    }
+    fn vdisp(_: u32) -> String {
+        "dv".into()
     }
 }
 
